@@ -28,7 +28,12 @@ fn pyop(v: &Value) -> PyOp {
     let f = || v["f"].as_f64().unwrap();
     let i = || v["i"].as_i64().unwrap();
     match name {
-        "PowInt" => PyOp::Plain(Op::Powi(i() as i32)),
+        // the wrapper tries i32 first and a float next: a Python int beyond the i32 range is a
+        // float exponent
+        "PowInt" => match i32::try_from(i()) {
+            Ok(n) => PyOp::Plain(Op::Powi(n)),
+            Err(_) => PyOp::Plain(Op::Powf(i() as f64)),
+        },
         "PowFloat" => PyOp::Plain(Op::Powf(f())),
         "PowDual" => PyOp::Plain(Op::Powd),
         "AddI" => PyOp::Plain(Op::AddF(i() as f64)),
@@ -404,6 +409,11 @@ fn main() {
             let r = guarded(|| match kind.as_str() {
                 "meta" => meta = t.clone(),
                 "driver" => driver(&mut ctx, &t),
+                // an exception (or a Rust panic surfacing as PanicException) inside a driver call
+                "error" if t["class"].as_str().unwrap_or("").starts_with("driver ") => {
+                    ctx.st.evaluations += 1;
+                    ctx.st.violation(Violation { sig: format!("python-exception {}", t["class"].as_str().unwrap()), case: t.clone(), what: format!("Python raised {:?}", t["error"]) });
+                }
                 _ => match t["class"].as_str().unwrap() {
                     "Dual64" => ctx.scalar_class::<Dual64>(&t),
                     "Dual2_64" => ctx.scalar_class::<Dual2_64>(&t),
@@ -458,7 +468,7 @@ fn main() {
         mode: cli.mode,
         seed: cli.seed,
         start,
-        rule: "Python side (py/driver.py under python3-vt, extension built from the working tree): for each of the 8 registered classes, constructors + getters, from_re, and BFS over programs of depth <= 2 on registers {two constructed values, earlier result} over 53 unary operations (25 named methods, log_base, sin_cos, powi, powf, ** with int and float, unary -, + - * / with a float or int on the right and on the left) and 6 binary operations (+ - * /, powd, ** with a dual exponent), numpy float arrays on either side and numpy object arrays of dual numbers on either side; drivers first/second/third_derivative, gradient and hessian for every length 1..12 (fixed-size classes to 10, dynamic beyond), jacobian n <= 10 x m in {1,2,3}, partial_hessian all (m,n) <= 6, second/third_partial_derivative, third_partial_derivative_vec all triples n <= 3, with 6 integrand chains. Rust side: every trace is replayed on the Rust types; results must be bit-for-bit identical, repr must equal Display, the element class seen by the callable must match the dispatch rule. Non-trivial = program and driver traces.".into(),
+        rule: "Python side (py/driver.py under python3-vt, extension built from the working tree): for each of the 8 registered classes, constructors + getters, from_re, and BFS over programs of depth <= 2 on registers {two constructed values, earlier result} over 53 unary operations (25 named methods, log_base, sin_cos, powi, powf, ** with int (also beyond the i32 range) and float, unary -, + - * / with a float or int on the right and on the left) and 6 binary operations (+ - * /, powd, ** with a dual exponent), numpy float arrays on either side and numpy object arrays of dual numbers on either side; drivers first/second/third_derivative, gradient and hessian for every length 1..12 (fixed-size classes to 10, dynamic beyond), jacobian n <= 10 x m in {1,2,3,n,n+1}, partial_hessian all (m,n) <= 6, second/third_partial_derivative, third_partial_derivative_vec all triples n <= 3, with 6 integrand chains. Rust side: every trace is replayed on the Rust types; results must be bit-for-bit identical, repr must equal Display, the element class seen by the callable must match the dispatch rule. Non-trivial = program and driver traces.".into(),
         assumptions: vec![
             "the extension is built in the dev profile, this binary in the release profile: Rust does not contract or re-associate float operations, both call the same libm".into(),
             "reflected - and / are replayed as the wrapper defines them (-x + f, recip(x) * f) and separately compared with the lifted Rust expression (equal / within 16 u)".into(),
